@@ -30,8 +30,10 @@ Four independent pieces:
 * text-subroutine helpers (`sub_msg`, `epr_create_text`, `epr_recv_text`).
 * non-termination guards (netqasm's `Executor._execute_commands` has no step bound and runs in this process):
   `Runner` counts the instructions each node's executor starts (`Executor._execute_command`, wrapped per
-  instance) and makes instruction number `insn_limit`+1 of one message raise `InstructionLimit` -- an ordinary
+  instance) and makes instruction number limit+1 of one message raise `InstructionLimit` -- an ordinary
   exception, so netqasm's own error path ends the subroutine (ErrorMessage, MsgDone) and the node stays usable;
+  the limit is 50 x the number of instructions the reference needs for the same subroutine (`preflight`: a
+  throw-away copy of the reference state, outcomes chosen freely), at least 1000, at most 20000;
   a wall-clock guard (`signal.setitimer`, `WallClockAbort`, a BaseException) around feed + settle is the second
   line of defence for loops that never start an instruction.  `Runner.send` reports either in `rec["aborted"]`;
   `judge_abort` turns it into the verdict (the reference, given the same outcomes, stopped long ago -> violation
@@ -47,10 +49,13 @@ from . import simnet as S
 from . import stabutil
 
 GROUP = "RCQM"
-INSN_LIMIT = 10000      # instructions one message may start on one node's executor; the subroutines C09 / C11
-#                         generate execute <= 186 (99.9%: < 150) -- measured over 23000 of them; a purely classical
-#                         endless loop reaches the limit in 0.1 s, one made of qalloc/init/qfree in ~13 s
-SHRINK_INSN_FLOOR = 2000  # shrinking candidates get min(INSN_LIMIT, max(this, 50 x what the reference needed))
+INSN_LIMIT = 20000      # most instructions one message may ever start on one node's executor
+INSN_FLOOR = 1000       # ... and the least the harness allows before it stops one
+INSN_FACTOR = 50        # limit of a subroutine = INSN_FACTOR x the instructions the reference interpreter needs for it
+#                         (estimated BEFORE the run by `preflight`), clamped to [INSN_FLOOR, INSN_LIMIT].  The
+#                         subroutines C09 / C11 generate execute <= 186 instructions (99.9%: < 150; measured over 23000);
+#                         a purely classical endless loop runs 100000 instructions/s, one of qalloc/init/qfree ~800/s
+PREFLIGHT_FUEL = INSN_LIMIT // INSN_FACTOR
 WALL_LIMIT = 20.0       # wall-clock seconds one message may take (feed + settle); normal: a few milliseconds
 NONTERM_KEY = "nonterminating-subroutine"
 NONTERM_MARGIN = 2      # verdict only if the real executor ran at least this many times the reference's instructions
@@ -308,13 +313,14 @@ class Runner:
         """max_regs: register limit of every node (None = simnet's default, far above any capacity used here).
         The Lean model's node has a qubit capacity only; see `_tie_line` for what the driver is told when a
         request is refused by the REGISTER limit.
-        insn_limit / wall_limit: the non-termination guards of `send` (None = off)."""
+        insn_limit / wall_limit: the non-termination guards of `send` (None = off).  insn_limit: a number, or a
+        function of the deserialised instruction list of a subroutine message (None for other messages) that
+        returns one; `send(..., insn_limit=)` overrides it for one message."""
         self.insn_limit, self.wall_limit = insn_limit, wall_limit
+        self.cur_limit = None                      # instruction limit of the message being served
         self.insns = {n: 0 for n in names}         # instructions started by the node's executor during this message
         self.limit_hit = {}                        # node -> instruction count at which InstructionLimit was raised
         self.dead = False                          # a wall-clock abort left the network in an unknown state
-        self.max_insns = 0                         # most instructions any message started on any node so far
-        self.max_ref_insns = 0                     # for the caller: most instructions ITS reference needed for a message
         if max_regs is None:
             self.nq = S.NqNet(list(names), max_qubits=cap, rng=rng)
         else:
@@ -417,7 +423,7 @@ class Runner:
             def execute_command(subroutine_id, command, _o=orig_cmd, _n=n):
                 # netqasm's instruction loop calls `self._execute_command(...)` once per instruction executed
                 k = me.insns[_n] = me.insns[_n] + 1
-                if me.insn_limit is not None and k > me.insn_limit:
+                if me.cur_limit is not None and k > me.cur_limit:
                     me.limit_hit[_n] = k - 1
                     raise InstructionLimit("the harness stopped the subroutine: %d instructions executed" % (k - 1))
                 return _o(subroutine_id, command)
@@ -547,7 +553,8 @@ class Runner:
 
     # -- driving ------------------------------------------------------------
 
-    def send(self, node, kind, app=None, maxq=None, body=None, sock=None, remote=None, remote_sock=0, note=None):
+    def send(self, node, kind, app=None, maxq=None, body=None, sock=None, remote=None, remote_sock=0, note=None,
+             insn_limit=None):
         from netqasm.backend.messages import InitNewAppMessage, OpenEPRSocketMessage, StopAppMessage
         nq = self.nq
         prog = None
@@ -565,6 +572,8 @@ class Runner:
             raise ValueError(kind)
         if self.dead:
             raise RuntimeError("this Runner was abandoned after a wall-clock abort")
+        lim = insn_limit if insn_limit is not None else self.insn_limit
+        self.cur_limit = lim(prog) if callable(lim) else lim      # may raise (ProgramDiverges): nothing was sent yet
         for n in self.names:
             self.rec[n] = self._blank()
             self.insns[n] = 0
@@ -578,14 +587,14 @@ class Runner:
             nq.feed(p, S.frame(self.msg_id[node], bytes(msg)))
             quiescent = nq.settle(max_virtual_time=60.0)
         self.msg_id[node] += 1
-        self.max_insns = max([self.max_insns] + list(self.insns.values()))
         aborted = None
         if guard.fired:
             # the exception may have been turned into a failed Deferred by twisted on its way out: the flag decides
             self.dead = True
             aborted = {"guard": "wall", "seconds": self.wall_limit, "insns": self.insns[node]}
         elif self.limit_hit:
-            aborted = {"guard": "insn", "insns": self.limit_hit.get(node, self.insns[node]), "nodes": sorted(self.limit_hit)}
+            aborted = {"guard": "insn", "insns": self.limit_hit.get(node, self.insns[node]), "nodes": sorted(self.limit_hit),
+                       "limit": self.cur_limit}
         if aborted:
             for n in self.names:        # the harness interfered: nothing from here on is the model's business
                 self.offmodel[n] = True
@@ -910,13 +919,48 @@ class RefApp:
         return ops
 
 
-def shrink_insn_limit(runner):
-    """instruction limit for the candidates of a shrinking run, from the execution of the case being shrunk
-    (`runner.max_ref_insns`: what the reference needed; else what the real executor needed if it was not stopped):
-    deleting lines does not make the reference's run much longer, and a candidate that needs 50 times as many
-    instructions is not a smaller witness"""
-    base = runner.max_ref_insns or (runner.max_insns if runner.max_insns < (runner.insn_limit or 0) else 0)
-    return min(INSN_LIMIT, max(SHRINK_INSN_FLOOR, 50 * base))
+def insn_limit_for(ref_insns):
+    """instruction limit of a message for which the reference needs (about) `ref_insns` instructions"""
+    return min(INSN_LIMIT, max(INSN_FLOOR, INSN_FACTOR * ref_insns))
+
+
+class _FreeReference(Reference):
+    """a reference register that takes a reported outcome as a suggestion: probability 0 -> the other one"""
+
+    def measure(self, t, o, remove=False):
+        try:
+            return Reference.measure(self, t, o, remove)
+        except Impossible:
+            return Reference.measure(self, t, not o, remove)
+
+
+class _Zeros(list):
+    """an inexhaustible supply of outcomes 0 (for `RefApp.run(..., outs)`)"""
+
+    def __bool__(self):
+        return True
+
+    def pop(self, _i=0):
+        return False
+
+
+def preflight(refapp, prog, cap, regs=None, fuel=PREFLIGHT_FUEL):
+    """How many instructions does `prog` execute in the reference semantics?  Estimated on a throw-away copy of the
+    application's reference state with outcome 0 for every measurement (1 where 0 is impossible): exact for programs
+    whose control flow does not depend on outcomes, else the count of one possible run.  None: still running after
+    `fuel` instructions.  cap / regs: the node's qubit capacity / register limit.  Touches nothing of `refapp`."""
+    src = refapp.ref
+    ref = _FreeReference()
+    ref.tokens, ref.vec, ref.next, ref.group = list(src.tokens), src.vec.copy(), src.next, dict(src.group)
+    app = RefApp(ref, refapp.maxq, lambda: cap - len(ref.tokens),
+                 (lambda: regs - ref.registers()) if regs is not None else None)
+    app.regs, app.qmap = dict(refapp.regs), dict(refapp.qmap)
+    app.arrays = {a: list(v) for a, v in refapp.arrays.items()}
+    try:
+        app.run(prog, _Zeros(), fuel=fuel)
+    except OutOfFuel:
+        return None
+    return app.executed
 
 
 def first_divergence(got_ops, want_ops):
